@@ -38,7 +38,7 @@ PROBE_SHEETS = [
 ]
 IMPORT_POSITION_PROBES = [
     ('@import "a";', {'import_sign': 'IMP'}, 0), ('.x{y:z}@import "a";', {'import_sign': 'IMP'}, 1), (':host{c:d}@import "a";', {'import_sign': 'IMP', 'convert_host': True}, 1),
-    ('@media (a){:host{c:d}@import "a";}', {'import_sign': 'IMP', 'convert_host': True}, 1), ('@import "a";@import "b";', {'import_sign': 'IMP'}, 1),
+    ('@media (a){:host{c:d}@import "a";}', {'import_sign': 'IMP', 'convert_host': True}, 1), ('@media (a){.x{c:d}}@import "a";', {'import_sign': 'IMP'}, 1), ('@font-face{a:b}@import "a";', {'import_sign': 'IMP'}, 1),
     (':host .x{c:d}@import "a";', {'import_sign': 'IMP', 'convert_host': True}, 1), ('@media (a){@import "a";}', {'import_sign': 'IMP'}, 0),
     ('/* c */ @import "a";', {'import_sign': 'IMP'}, 0),
 ]
@@ -254,8 +254,11 @@ def rule_list(res, mod, prop, lmax=3):
         calls = [e for e in q.events if e[0] == 'at_call']
         for (_, k, flag) in calls:
             fl = flag if isinstance(flag, z3.ExprRef) else z3.BoolVal(bool(flag))
-            obs.append(cc.Ob([prop], 'import-position', 'at_file_start is %s for rule number %d of the list' % ('not true' if k == 0 else 'true', k + 1), q,
-                             z3.Not(fl) if k == 0 else fl, tgt))
+            # the property: "imports after other rules are ... flagged" - a rule that follows only `@import` statements may or may not count as
+            # "at the start" (CSS allows several imports up front), so for k > 0 the flag is only wrong if some earlier rule is not an import
+            only_imports = z3.And([z3.And(z3.Bool('rule_%d_is_at' % j), z3.Bool('rule_%d_is_import' % j)) for j in range(k)]) if k else z3.BoolVal(True)
+            obs.append(cc.Ob([prop], 'import-position', 'at_file_start is %s for rule number %d of the list%s' % ('not true' if k == 0 else 'true', k + 1, '' if k == 0 else ' although a rule other than @import precedes it'), q,
+                             z3.Not(fl) if k == 0 else z3.And(fl, z3.Not(only_imports)), tgt))
         # every rule of the level was handed to exactly one routine, in order
         poss = [e[2] for e in rules]
         obs.append(cc.Ob([prop], 'rule-list', 'rules are not processed one after the other (%s)' % poss, q, z3.BoolVal(poss != list(range(len(poss)))), tgt))
